@@ -129,11 +129,13 @@ class C01(common.Prop):
 
     def classify(self, case, failure):
         uni = any(cp > 127 for c in case["comps"] for cp in c["name"] + c["format"] + sum(c["points"], []))
-        if case["edge"] in ("more_points", "fewer_points", "conf_shape"):
+        fields = failure.get("fields") or []
+        what = failure.get("what", "")
+        if case["edge"] in ("more_points", "fewer_points", "conf_shape") and not fields:
             return "write-accepts-body-header-shape-mismatch"
-        if uni:
+        if uni and ("comps" in fields or "Unicode" in what or (not fields and "raises" in what)):
             return "non-ascii-string-length-prefix"
-        return "roundtrip-" + (failure.get("fields") or ["raises"])[0]
+        return "roundtrip-" + (fields or ["raises"])[0]
 
 
 PROP = C01
